@@ -64,6 +64,9 @@ ASSUMPTIONS = [
     "batch fits do not use the model 'sneddon_spher' (third-party package nanite_model_sneddon_spher, not in "
     "/repo; its iterative solver did not return within 45 min for a fit with varying R and nu); the setup "
     "scripts do select it",
+    "an ArithmeticError raised inside a model function during a batch fit (seen once: ZeroDivisionError of "
+    "power_layer_clifford_2009 when the optimizer puts E_S on its lower bound 0.0) is counted as "
+    "batch_model_arithmetic_error and not judged here",
     "E column is not compared for models without a parameter named E (two-layer model); only that "
     "the batch does not raise and the other columns are right",
     "batch fit == scripted fit with the same settings (docs: 'The fitting results are identical'), "
@@ -722,6 +725,15 @@ def curve_for(state, tab, spec):
                            with_tip=spec["with_tip"])
 
 
+def model_arithmetic(exc):
+    """an arithmetic error raised inside a model function while the optimizer explores the parameter
+    bounds (seen: ZeroDivisionError of power_layer_clifford_2009 at E_S = 0.0, its lower bound) is the
+    model contract's business (C13), not a statement about the profile: counted, not judged"""
+    import traceback
+    frames = [fr for fr in traceback.extract_tb(exc.__traceback__) if "/nanite/" in fr.filename]
+    return bool(frames) and "/nanite/model/" in frames[-1].filename
+
+
 def check_batch(case, ctx):
     import tifffile
     from nanite.cli import rating
@@ -771,11 +783,18 @@ def check_batch(case, ctx):
     desc = {"model": mk, "range_type": full["range_type"]}
     rating.fit_data.cache_clear()
     ok = False
-    with ctx.no_raise("batch-fit-raises", desc):
-        with contextlib.redirect_stdout(io.StringIO()):
-            rating.fit_perform(path=folder, path_results=out, profile_path=path)
-        ok = True
-    rating.fit_data.cache_clear()
+    try:
+        with ctx.no_raise("batch-fit-raises", desc, allowed=(ArithmeticError,)):
+            with contextlib.redirect_stdout(io.StringIO()):
+                rating.fit_perform(path=folder, path_results=out, profile_path=path)
+            ok = True
+    except ArithmeticError as exc:
+        if not model_arithmetic(exc):
+            ctx.fail("batch-fit-raises", dict(desc, exception=type(exc).__name__),
+                     f"raised {type(exc).__name__}: {exc}")
+        ctx.event("batch_model_arithmetic_error")
+    finally:
+        rating.fit_data.cache_clear()
     if not ok:
         return
     # the batch must not have changed the settings it was given
@@ -807,8 +826,14 @@ def check_batch(case, ctx):
         params = nmodel.models_available[mk].get_parameter_defaults()
         for name, v, vary in expected_params(state, tab):
             params[name].set(value=v, vary=vary)
-        idnt.fit_model(model_key=mk, params_initial=params, range_type=full["range_type"],
-                       range_x=list(full["range_x"]), segment=full["segment"], weight_cp=full["weight_cp"])
+        try:
+            idnt.fit_model(model_key=mk, params_initial=params, range_type=full["range_type"],
+                           range_x=list(full["range_x"]), segment=full["segment"], weight_cp=full["weight_cp"])
+        except ArithmeticError as exc:
+            if not model_arithmetic(exc):
+                raise
+            ctx.event("batch_model_arithmetic_error")
+            continue
         fitted = idnt.fit_properties["params_fitted"]
         if has_E:
             want = str(fitted["E"].value)
